@@ -85,6 +85,10 @@ SetFooter(b, f)    == [b EXCEPT !.footer = f]
 \* @type: ($bstate, Str) => $bstate;
 SetAssertion(b, a) == [b EXCEPT !.assertion = a]
 
+\* C05 / C06: the empty string is "no footer" / "no assertion"; what binds a token is the value set last
+\* @type: (Str) => Str;
+NormFA(x) == IF x = "empty" THEN "none" ELSE x
+
 \* PasetoBuilder::verify_ready_to_build removes exp when acknowledged - before the duplicate test
 \* @type: ($bstate) => $bstate;
 Ready(b) == IF b.layer = "prelude" /\ b.nonexp THEN [b EXCEPT !.claims["exp"] = Absent] ELSE b
